@@ -202,4 +202,22 @@ def bfsLevels : Nat → Nat → List (ITree β × Nat) → List Item
 
 def ITree.levelOrder (t : ITree β) : List Item := bfsLevels (t.size + 1) 0 [(t, 0)]
 
+/-- children (with remaining-sibling counters) of the members of a level, omitting those of the members
+    whose emission position is marked in the skip schedule -/
+def nextLevel (sk : Nat → Nat) : List (ITree β × Nat) → Nat → List (ITree β × Nat)
+  | [], _ => []
+  | tr :: rest, k =>
+    (if sk k ≠ 0 then [] else (entries 0 tr.1.kids.childList).map (fun e => (e.2.1, e.2.2)))
+      ++ nextLevel sk rest (k+1)
+
+/-- level order with skips: `k` is the emission position of the first member of `level` -/
+def refBfsLevels (sk : Nat → Nat) : Nat → Nat → List (ITree β × Nat) → Nat → List Item
+  | 0, _, _, _ => []
+  | fuel+1, d, level, k =>
+    if level.isEmpty then [] else
+    level.map (fun tr => ⟨d, tr.1.idx, tr.2⟩) ++
+      refBfsLevels sk fuel (d+1) (nextLevel sk level k) (k + level.length)
+
+def ITree.refBfs (sk : Nat → Nat) (t : ITree β) : List Item := refBfsLevels sk (t.size + 1) 0 [(t, 0)] 0
+
 end AV
